@@ -544,7 +544,21 @@ func (ev *Evaluator) instr(env map[ssa.Value]Val, in ssa.Value) (Val, error) {
 				return sv, nil
 			}
 		}
-		return Term{Fn: "slice", Args: []Val{x}}, nil
+		// keep the bounds in the operator name: slice[lo:hi](x)
+		b := func(v ssa.Value) string {
+			if v == nil {
+				return ""
+			}
+			y, err := ev.val(env, v)
+			if err != nil {
+				return "?"
+			}
+			return y.String()
+		}
+		if in.Low == nil && in.High == nil {
+			return Term{Fn: "slice", Args: []Val{x}}, nil
+		}
+		return Term{Fn: "slice[" + b(in.Low) + ":" + b(in.High) + "]", Args: []Val{x}}, nil
 	case *ssa.IndexAddr:
 		x, err := ev.val(env, in.X)
 		if err != nil {
